@@ -52,6 +52,13 @@ pub const PROGRAMS: &[&str] = &[
     "from t | select {x = s\"RANDOM()\"}",
     "from t | join side:full u (==a)",
     "from t | sort {-a} | select {b} | take 1",
+    // the header is itself a declaration called `prql`: programs that use that name — the compiler version behind
+    // `prql.version`, a column / a constant / a module called `prql` — must be accepted or rejected alike with the
+    // target in the header and in the option
+    "from t | derive {v = prql.version} | take 1",
+    "from t | select {`prql` = a}",
+    "from t | select {`prql`, a}",
+    "let `prql` = 5\nfrom t | take 1",
     // relations given as SQL text, in each quoting style a dialect might read differently
     "from s\"SELECT b, a FROM t\" | select {a, b}",
     "from s\"SELECT [b], [a] FROM t\"",
@@ -181,6 +188,9 @@ pub fn run(tier: Tier) -> i32 {
             run.observe(hh);
         }
         for (k, m) in bad {
+            // cause predicate of a recorded finding: the header is kept as a declaration called `prql`, so a column
+            // of that name read from the table is ambiguous as soon as a header is present
+            let k = if PROGRAMS[p].contains("`prql`") && h != 0 && (m.contains("Ambiguous name") || m.contains("duplicate declarations of prql") || m.contains("expected the output of option")) { "name-prql-clashes-with-the-header-declaration".to_string() } else { k };
             run.violate(
                 Some(k),
                 format!("program {:?} option#{o} header#{h}: {}", PROGRAMS[p], m.lines().next().unwrap_or("")),
